@@ -109,6 +109,9 @@ func ResolveRelativeSource(a, b Source) (Source, error) {
 		if err != nil {
 			return nil, fmt.Errorf("invalid traversal from %s: %w", a.String(), err)
 		}
+		if err := registrySubPathWritable(newSub); err != nil {
+			return nil, fmt.Errorf("invalid traversal from %s: %w", a.String(), err)
+		}
 		return RegistrySource{
 			pkg:     a.pkg,
 			subPath: newSub,
